@@ -1,7 +1,7 @@
 (* C16 — the sample-to-individual mapping: the GT columns are regrouped, in order, into
    consecutive runs; header facts. *)
 From Coq Require Import List ZArith Bool Lia.
-From TskVerif Require Import Base.Common C16.Model C16.Spec C16.TemplateProofs.
+From TskVerif Require Import Base.Common Gen.Generated C16.Model C16.Spec C16.TemplateProofs.
 Import ListNotations.
 Open Scope Z_scope.
 
@@ -81,6 +81,14 @@ Definition uniform_flags (nodes : list node_info) (g : list Z) : Prop :=
   let flags := map (fun u => match nth_error nodes (Z.to_nat u) with Some (s, _) => s | None => false end) g in
   existsb (fun b => b) flags && existsb negb flags = false.
 
+Lemma individual_rejected_uniform : forall flags,
+  individual_rejected flags = false -> existsb (fun b => b) flags && existsb negb flags = false.
+Proof.
+  intros flags. unfold individual_rejected. destruct c16_individuals_must_be_samples; intros H.
+  - rewrite H. apply andb_false_r.
+  - exact H.
+Qed.
+
 Lemma groups_of_individuals_spec : forall nodes ni inds groups,
   groups_of_individuals nodes ni inds = Ok groups ->
   groups = map (individual_nodes nodes) inds
@@ -92,7 +100,7 @@ Proof.
   - destruct ((i <? 0) || (ni <=? i)) eqn:Ei; [discriminate|].
     apply orb_false_iff in Ei as [E1 E2]. apply Z.ltb_ge in E1. apply Z.leb_gt in E2.
     destruct (individual_nodes nodes i) as [|u us] eqn:En; [discriminate|].
-    destruct (existsb _ _ && existsb _ _) eqn:Ef; [discriminate|].
+    destruct (individual_rejected _) eqn:Ef; [discriminate|]. apply individual_rejected_uniform in Ef.
     destruct (groups_of_individuals nodes ni inds) as [r| | |] eqn:Er; try discriminate.
     cbn [bind] in H. inversion H; subst groups.
     destruct (IH r eq_refl) as [H1 [H2 H3]]. subst r.
@@ -226,9 +234,10 @@ Example mapping_examples :
   let nodes := [(true, 1); (true, 0); (true, 1); (false, -1); (true, 0); (false, 2)] in
   make_sample_mapping nodes 3 None None = Ok [[1; 4]; [0; 2]]
   /\ make_sample_mapping nodes 3 None (Some [1; 0]) = Ok [[0; 2]; [1; 4]]
-  /\ make_sample_mapping nodes 3 None (Some [2]) = Ok [[5]]            (* all non-sample: accepted *)
+  /\ make_sample_mapping nodes 3 None (Some [2])
+     = (if c16_individuals_must_be_samples then Err E_VALUE else Ok [[5]])   (* all non-sample *)
   /\ make_sample_mapping nodes 3 (Some 2) None = Err E_VALUE
   /\ make_sample_mapping [(true, -1); (true, -1); (false, -1); (true, -1); (true, -1)] 0 (Some 2) None
      = Ok [[0; 1]; [3; 4]]
-  /\ make_sample_mapping [(false, -1)] 0 None None = Err E_INDEX.
+  /\ make_sample_mapping [(false, -1)] 0 None None = Err zero_samples_error.
 Proof. repeat split. Qed.
